@@ -82,6 +82,11 @@ def descriptions(rng, tier):
     rng.shuffle(mg)
     out["multigroup"] = {"elements": DEFAULT_ELEMENTS, "pseudo": DEFAULT_PSEUDO, "kwargs": {}, "grain_model": "hh93",
                          "files": [["\n".join(mg) + "\n", "naunet"]]}
+    # D6: a project that declares its elements only (no pseudo-elements at all): the generic third body `M` is an element of
+    # this network, although `M` is a pseudo-element in the default list and in other projects
+    eo = [native(1, ["H", "H", "M"], ["H2", "M"]), native(2, ["C", "O"], ["CO"]), native(3, ["CO", "M"], ["C", "O", "M"]),
+          native(4, ["H2", "O"], ["OH", "H"])]
+    out["elements-only"] = {"elements": ["H", "C", "O", "M"], "pseudo": [], "kwargs": {}, "files": [["\n".join(eo) + "\n", "naunet"]]}
     return out
 
 
@@ -148,7 +153,8 @@ def run(argv):
     # (c) interleavings: build A, then build/query/render B, then render A; edit after interleaving
     pairs = [(a, b) for a in names for b in names if a != b]
     if tier == "quick":
-        pairs = rng.sample(pairs, 6) + [("upper", "default"), ("gprefix", "upper"), ("krome2", "krome"), ("krome", "krome2")]
+        pairs = rng.sample(pairs, 6) + [("upper", "default"), ("gprefix", "upper"), ("krome2", "krome"), ("krome", "krome2"),
+                                        ("elements-only", "upper"), ("elements-only", "default")]
     for a, b in pairs:
         steps = [{"op": "build", "id": "A", "desc": descs[a]}, {"op": "build", "id": "B", "desc": descs[b]},
                  {"op": "query", "id": "B"}, {"op": "render", "id": "B", "backend": BACKENDS[0], "tag": [b, "dense"]},
@@ -159,7 +165,8 @@ def run(argv):
     extra = {"upper": (native(77, ["MG+", "E"], ["MG"]), "naunet"), "default": (native(77, ["Mg+", "e-"], ["Mg"]), "naunet"),
              "krome": ("5,HE+,E,,HE,,,,NONE,NONE,1.0d-11", "krome"), "krome2": ("5,HE+,E,,HE,,,,NONE,NONE,1.0d-11", "krome"),
              "gprefix": (netgen.leeds_line(77, ["GH", "GCO"], ["GHCO"]), "leeds"),
-             "multigroup": (native(77, ["#2N2"], ["N2"], a=1.0, ty=201), "naunet")}
+             "multigroup": (native(77, ["#2N2"], ["N2"], a=1.0, ty=201), "naunet"),
+             "elements-only": (native(77, ["OH", "M"], ["O", "H", "M"]), "naunet")}
     for a in names:
         line, fmt = extra[a]
         base_steps = [{"op": "build", "id": "A", "desc": descs[a]}, {"op": "add_line", "id": "A", "line": line, "fmt": fmt},
